@@ -30,7 +30,14 @@ PI = real_val(math.pi)
 def _tank(cx, name="T", **kw):
     # a tank as the simulator leaves it after a solved step: its reported demand is already net of the leak; the leak itself is some number
     f = dict(_vol_curve_name=None, _curve_reg=_NoneReg(), _leak_demand=cx.real("leak_demand_" + name))
+    # Tank.__init__ sets the overflow flag; whether the tank may overflow is arbitrary (no law of C06 depends on it inside the level limits)
+    f["_overflow"] = cx.bool("overflow_" + name) if cx.is_symbolic() else False
     f.update(kw)
+    if cx.is_symbolic():
+        # the other attributes Tank.__init__ sets are arbitrary numbers of their own (code that starts to read one of them runs, and fails its postcondition if it matters)
+        for a in ("_min_level", "_max_level", "_init_level", "_min_vol", "_diameter", "_elevation"):
+            if a not in f:
+                f[a] = cx.real(a[1:] + "_" + name)
     return mk_node(cx, Tank, name, **f)
 
 
